@@ -23,6 +23,9 @@ R5 packed length (mtbl_varint_length_packed): for every buffer length L in 0..LM
 R6 fixed codecs: encode stores input bits 8k..8k+7 in byte k (little-endian) and returns the
    width in bytes; decode returns the same routing inverted; composition is the identity; no
    access wider than a byte goes through the byte pointer (any alignment).
+R7 declared effects: no codec that reads or writes memory through a pointer parameter carries
+   __attribute__((const)) (or pure, if it writes): such a declaration lets an optimising caller
+   reuse a stale result or drop the call.
 """
 import subprocess
 from .common import *
@@ -384,6 +387,26 @@ def run(ctx, res):
                 problems.append("%d-bit %s through the byte pointer at %s: traps or tears at odd addresses" % (a[3], a[0], a[4]))
         res.check(not problems and len(out) >= 1, "C16.R6", site(f, "routing"), "result bit 8k+j = byte k bit j, reads exactly %d bytes byte-wise" % (W // 8),
                   "; ".join(problems[:3]), f.loc(f.body))
+
+    # ---- R7 declared effects ---------------------------------------------------------------------
+    # `const` promises the result depends on the argument values only (not on memory behind a pointer), `pure` that
+    # nothing is written: an optimising caller may then reuse an earlier result or drop the call.
+    res.floor("C16.R7", 10)
+    for role, (f, ent) in sorted(funcs.items()):
+        attrs = set(f.attrs or [])
+        d = prog.decls.get(f.name) if isinstance(getattr(prog, "decls", None), dict) else None
+        if isinstance(d, dict):
+            attrs |= set(d.get("attrs", []) or [])
+        reads_mem = "buf_param" in ent and ("out_param" in ent or role.startswith("fixed_decode") or role == "varint_length_packed")
+        writes_mem = "value_param" in ent and "buf_param" in ent or "out_param" in ent
+        bad = None
+        if "const" in attrs and (reads_mem or writes_mem):
+            bad = "declared __attribute__((const)) although it %s memory through its pointer parameter: a caller compiled with optimisation " \
+                  "may reuse a result from before the bytes changed" % ("reads" if reads_mem and not writes_mem else "writes")
+        elif "pure" in attrs and writes_mem:
+            bad = "declared __attribute__((pure)) although it writes through its pointer parameter: the call may be dropped"
+        res.check(bad is None, "C16.R7", site(f, "declared-effects"), "no const/pure attribute contradicts the memory the function touches (%s)" % (sorted(attrs) or "no attributes"),
+                  bad, f.loc(f.body))
 
     res.tables["target_little_endian"] = le
     res.tables["functions_interpreted"] = sorted(seen)
